@@ -43,7 +43,7 @@ var keys []*ecdsa.PrivateKey
 var keyAddr []common.Address
 
 func initKeys() {
-	for i := 0; i < nKeys+4; i++ {
+	for i := 0; i < nKeys+8; i++ {
 		d := crypto.Keccak256([]byte(fmt.Sprintf("verif-c17-key-%d", i)))
 		k, err := crypto.ToECDSA(d)
 		if err != nil {
@@ -663,7 +663,28 @@ type StkSpec struct {
 	Mode    string `json:"mode"`
 	Inner   string `json:"inner"`    // value inside the staking payload
 	MainKey int    `json:"main_key"` // key whose public key names the validator
+	Role    int    `json:"role,omitempty"`
+	Status  int    `json:"status,omitempty"`
 }
+
+// ValSpec is a validator that exists before the block (state.CreateValidator)
+type ValSpec struct {
+	MainKey int    `json:"main_key"` // index into keys (>= nKeys+4)
+	OpKey   int    `json:"op_key"`   // operator = key holder
+	Role    int    `json:"role"`
+	You     uint64 `json:"you"` // staked tokens in YOU (= stake units)
+	Online  bool   `json:"online"`
+	Accept  bool   `json:"accept"`
+}
+
+func mainAddrOf(key int) common.Address {
+	return state.PubToAddress(crypto.CompressPubkey(&keys[key].PublicKey))
+}
+
+// staking modes that can end in success, and those whose success detains Inner
+var stkCanSucceed = map[string]bool{"create": true, "create_role": true, "deposit": true, "withdraw": true,
+	"update": true, "update_nothing": true, "status": true, "settle": true, "deleg_add": true, "deleg_sub": true}
+var stkDetains = map[string]bool{"create": true, "create_role": true, "deposit": true, "deleg_add": true}
 
 type MsgSpec struct {
 	Key    int      `json:"key"`     // signing key
@@ -697,12 +718,14 @@ type StepObs struct {
 	Create  bool   `json:"stk_create"`
 	HOk     bool   `json:"stk_ok"`
 	Detain  string `json:"stk_detained"`
+	HErr    string `json:"stk_err,omitempty"` // what the handler answered in the dry run
 }
 
 type ApplyCase struct {
 	Kind    string    `json:"kind"` // "apply"
 	Version uint64    `json:"version"`
 	Accts   []Acct    `json:"accts"`
+	Vals    []ValSpec `json:"vals,omitempty"`
 	Pool    uint64    `json:"pool"`
 	Msgs    []MsgSpec `json:"msgs"`
 	// observations
@@ -743,7 +766,7 @@ func applyCode(err error) int {
 	return 99
 }
 
-func newState(accts []Acct) *state.StateDB {
+func newState(accts []Acct, vals []ValSpec) *state.StateDB {
 	db := state.NewDatabase(youdb.NewMemDatabase())
 	st, err := state.New(common.Hash{}, common.Hash{}, common.Hash{}, db)
 	if err != nil {
@@ -760,6 +783,22 @@ func newState(accts []Acct) *state.StateDB {
 			st.SetState(ad, common.Hash{}, common.BigToHash(new(big.Int).SetUint64(a.Slot)))
 		}
 	}
+	for _, v := range vals {
+		pub := crypto.CompressPubkey(&keys[v.MainKey].PublicKey)
+		token := new(big.Int).Mul(new(big.Int).SetUint64(v.You), params.StakeUint)
+		status, accept := params.ValidatorOffline, uint16(0)
+		if v.Online {
+			status = params.ValidatorOnline
+		}
+		if v.Accept {
+			accept = params.AcceptDelegation
+		}
+		if st.CreateValidator(fmt.Sprintf("val%d", v.MainKey), keyAddr[v.OpKey], keyAddr[v.OpKey], params.ValidatorRole(v.Role),
+			pub, pub, token, new(big.Int).SetUint64(v.You), accept, 0, 0, status) == nil {
+			panic("cannot create validator")
+		}
+	}
+	st.Finalise(true)
 	root, valRoot, stakingRoot, err := st.Commit(false)
 	if err != nil {
 		panic(err)
@@ -802,6 +841,7 @@ func stakingPayload(s *StkSpec, from common.Address, r *vf.Rng) []byte {
 			MainPubKey: crypto.CompressPubkey(&keys[s.MainKey].PublicKey), BlsPubKey: []byte{1, 2, 3},
 			Value: num(s.Inner), Nonce: 0, Role: params.RoleHouse}
 	}
+	target := mainAddrOf(s.MainKey)
 	switch s.Mode {
 	case "garbage":
 		return r.Bytes(1 + r.Intn(20))
@@ -818,6 +858,32 @@ func stakingPayload(s *StkSpec, from common.Address, r *vf.Rng) []byte {
 		return mk(staking.ValidatorCreate, create(common.BytesToAddress([]byte{9, 9, 9})))
 	case "deposit_unknown":
 		return mk(staking.ValidatorDeposit, &staking.TxValidatorDeposit{MainAddress: crypto.PubkeyToAddress(keys[s.MainKey].PublicKey), Value: num(s.Inner)})
+	case "create_role":
+		c := create(from)
+		c.Role = params.ValidatorRole(s.Role)
+		return mk(staking.ValidatorCreate, c)
+	case "deposit":
+		return mk(staking.ValidatorDeposit, &staking.TxValidatorDeposit{MainAddress: target, Value: num(s.Inner)})
+	case "deposit_zero":
+		return mk(staking.ValidatorDeposit, &staking.TxValidatorDeposit{MainAddress: target, Value: new(big.Int)})
+	case "withdraw":
+		return mk(staking.ValidatorWithDraw, &staking.TxValidatorWithdraw{MainAddress: target, Recipient: from, Value: num(s.Inner)})
+	case "withdraw_no_recipient":
+		return mk(staking.ValidatorWithDraw, &staking.TxValidatorWithdraw{MainAddress: target, Value: num(s.Inner)})
+	case "update":
+		return mk(staking.ValidatorUpdate, &staking.TxUpdateValidator{MainAddress: target, Name: "renamed", AcceptDelegation: 0xffff, CommissionRate: 0xffff, RiskObligation: 0xffff})
+	case "update_nothing":
+		return mk(staking.ValidatorUpdate, &staking.TxUpdateValidator{MainAddress: target, AcceptDelegation: 0xffff, CommissionRate: 0xffff, RiskObligation: 0xffff})
+	case "status":
+		return mk(staking.ValidatorChangeStatus, &staking.TxValidatorChangeStatus{MainAddress: target, Status: uint8(s.Status)})
+	case "settle":
+		return mk(staking.ValidatorSettle, &staking.TxValidatorSettle{MainAddress: target})
+	case "deleg_add":
+		return mk(staking.DelegationAdd, &staking.TxDelegation{Validator: target, Value: num(s.Inner)})
+	case "deleg_sub":
+		return mk(staking.DelegationSub, &staking.TxDelegation{Validator: target, Value: num(s.Inner)})
+	case "deleg_settle":
+		return mk(staking.DelegationSettle, &staking.TxDelegationSettle{Validator: target})
 	}
 	panic("mode " + s.Mode)
 }
@@ -840,7 +906,7 @@ func newEnv(c *ApplyCase) *env {
 	if !ok {
 		panic("no such version")
 	}
-	e := &env{st: newState(c.Accts), chain: chainStub{&yp}, rewards: new(big.Int)}
+	e := &env{st: newState(c.Accts, c.Vals), chain: chainStub{&yp}, rewards: new(big.Int)}
 	gp := core.GasPool(c.Pool)
 	e.gp = &gp
 	e.proc = core.NewStateProcessor(nil, nil)
@@ -890,9 +956,14 @@ func (e *env) stakeOracle(tx *types.Transaction, so *StepObs) {
 	before := cp.GetBalance(from)
 	gp := core.GasPool(0)
 	ctx := core.NewMsgContext(msg, cp, e.chain, e.header, e.header.Coinbase, &gp, e.cfg, local.FakeRecorder())
-	if staking.VerifC17Handler(sm.Action)(ctx, sm.Payload) == nil {
+	if err := staking.VerifC17Handler(sm.Action)(ctx, sm.Payload); err == nil {
 		so.HOk = true
 		so.Detain = new(big.Int).Sub(before, cp.GetBalance(from)).String()
+	} else {
+		so.HErr = err.Error()
+		if len(so.HErr) > 40 {
+			so.HErr = so.HErr[:40]
+		}
 	}
 }
 
@@ -917,6 +988,12 @@ func intrinsicOf(m MsgSpec) uint64 {
 // runs the whole case on the implementation, records the observations and
 // evaluates the property oracle on them
 func observeApply(c *ApplyCase) {
+	// hand-written corpus cases may leave the staking payload to be built here
+	for i, m := range c.Msgs {
+		if m.Stk != nil && m.Data == "" && m.Stk.Mode != "empty" && m.Stk.Mode != "garbage" {
+			c.Msgs[i].Data = hex.EncodeToString(stakingPayload(m.Stk, keyAddr[m.Key], nil))
+		}
+	}
 	e := newEnv(c)
 	c.Steps, c.Final, c.What, c.WhatAt = nil, nil, "", 0
 	applied := map[common.Hash]bool{}
@@ -1042,11 +1119,16 @@ func observeApply(c *ApplyCase) {
 			moved := new(big.Int)
 			switch {
 			case isStk:
-				if !so.Failed && m.Stk != nil && (m.Stk.Mode == "create") {
+				// a staking message detains the value written in its payload, once,
+				// and only when it succeeds; the outer transaction value is never moved
+				if !so.Failed && m.Stk != nil && stkDetains[m.Stk.Mode] {
 					moved = num(m.Stk.Inner)
 				}
-				if !so.Failed && (m.Stk == nil || m.Stk.Mode != "create") {
+				if !so.Failed && (m.Stk == nil || !stkCanSucceed[m.Stk.Mode]) {
 					flag(i, "a staking message that cannot succeed was reported successful")
+				}
+				if post[watch[1]] != pre[watch[1]] {
+					flag(i, "a staking message changed the staking module account")
 				}
 			case !so.Failed:
 				to := watch[1]
@@ -1066,9 +1148,29 @@ func observeApply(c *ApplyCase) {
 					flag(i, "refund-not-in-gas-used")
 				case isStk && c.Version < 4 && so.Failed && charged.Cmp(exact) < 0:
 					// protocol versions before YouV4: known, fixed by the YouV4 upgrade
+				case isStk && so.Failed:
+					flag(i, fmt.Sprintf("a failed staking message (%s) cost the sender %s besides its gas", m.Stk.Mode, new(big.Int).Neg(diff)))
 				default:
 					flag(i, fmt.Sprintf("sender charged %s, exact charge is %s", charged, exact))
 				}
+			}
+			// supply over every account in sight: only the gas fee (and a detained
+			// stake) leaves; a transferred value arrives at the recipient
+			sumPre, sumPost := new(big.Int), new(big.Int)
+			seenA := map[common.Address]bool{}
+			for _, a := range all {
+				if !seenA[a] {
+					seenA[a] = true
+					sumPre.Add(sumPre, num(pre[a].Bal))
+					sumPost.Add(sumPost, num(post[a].Bal))
+				}
+			}
+			drop := new(big.Int).Mul(new(big.Int).SetUint64(gas), price)
+			if isStk {
+				drop.Add(drop, moved)
+			}
+			if charged.Cmp(exact) == 0 && new(big.Int).Sub(sumPre, sumPost).Cmp(drop) != 0 {
+				flag(i, "the balances in sight changed by something else than the gas fee and the detained stake")
 			}
 			if !isStk && !so.Failed && watch[1] != from {
 				got := new(big.Int).Sub(num(post[watch[1]].Bal), num(pre[watch[1]].Bal))
@@ -1216,6 +1318,40 @@ func genApply(r *vf.Rng) ApplyCase {
 			contracts = append(contracts, contractAddr(kind, i))
 		}
 	}
+	// validators that exist before the block, operated by key holders who can
+	// afford deposits up to the role's MaxStakes
+	if r.Chance(45) {
+		yp := params.Versions[params.YouVersion(c.Version)]
+		if r.Chance(80) {
+			c.Pool = 8000000 // room for several staking messages
+		}
+		for j := 0; j < 1+r.Intn(3); j++ {
+			v := ValSpec{MainKey: nKeys + 4 + j, OpKey: r.Intn(nKeys), Online: r.Chance(75), Accept: r.Chance(90)}
+			v.Role = []int{3, 3, 3, 3, 2, 2, 1}[r.Intn(7)]
+			max := yp.MaxStakes[params.ValidatorRole(v.Role)]
+			switch r.Intn(8) {
+			case 0:
+				v.You = max
+			case 1:
+				v.You = max - 1
+			case 2:
+				v.You = uint64(1 + r.Intn(99)) // below MinStakes
+			default:
+				v.You = max - []uint64{5000, 20000, 50000, 100000}[r.Intn(4)]
+			}
+			c.Vals = append(c.Vals, v)
+			rich := new(big.Int).Mul(youUnit, big.NewInt(int64(100000+r.Intn(1900000)))).String()
+			found := false
+			for i := range c.Accts {
+				if common.HexToAddress(c.Accts[i].Addr) == keyAddr[v.OpKey] {
+					c.Accts[i].Bal, found = rich, true
+				}
+			}
+			if !found {
+				c.Accts = append(c.Accts, Acct{Addr: keyAddr[v.OpKey].Hex(), Bal: rich})
+			}
+		}
+	}
 	// nonces / balances at generation time, only to steer the generator
 	nonce := map[int]uint64{}
 	bal := map[int]*big.Int{}
@@ -1248,6 +1384,8 @@ func genApply(r *vf.Rng) ApplyCase {
 	}
 	steps := 1 + r.Heavy(40)
 	usedMain := 0
+	var delegs [][2]int
+	var delegAmt []string
 	live := newEnv(&c) // the implementation itself tells the generator where the accounts stand
 	for s := 0; s < steps; s++ {
 		for k := 0; k < nKeys; k++ {
@@ -1282,7 +1420,11 @@ func genApply(r *vf.Rng) ApplyCase {
 		// destination
 		var to *common.Address
 		kindOfTo := 0
-		switch d := r.Intn(20); {
+		d := r.Intn(20)
+		if len(c.Vals) > 0 && d >= 7 && r.Chance(45) {
+			d = 3 // blocks with validators carry more staking messages
+		}
+		switch {
 		case d < 3:
 			to = nil
 			m.Data = hex.EncodeToString([][]byte{{}, {0}, {0xfe}, codes[3], codes[4], codes[5], {}}[r.Intn(7)])
@@ -1304,6 +1446,84 @@ func genApply(r *vf.Rng) ApplyCase {
 				}
 			default:
 				sk.Inner = new(big.Int).Mul(youUnit, big.NewInt(int64(1+r.Intn(300)))).String()
+			}
+			if len(c.Vals) > 0 && r.Chance(75) {
+				// a message about an existing validator; every branch of the handlers:
+				// wrong operator, bad value, thresholds (alone and together with the
+				// earlier messages of this staking period), wrong status
+				v := c.Vals[r.Intn(len(c.Vals))]
+				if r.Chance(80) {
+					k = v.OpKey
+					m.Key, m.Nonce = k, nonce[k]
+				}
+				yp := params.Versions[params.YouVersion(c.Version)]
+				max := new(big.Int).SetUint64(yp.MaxStakes[params.ValidatorRole(v.Role)])
+				cur := live.st.GetStakingRecordValue(common.Address{}, mainAddrOf(v.MainKey))
+				if cur.Sign() == 0 {
+					cur = new(big.Int).Mul(youUnit, new(big.Int).SetUint64(v.You))
+				}
+				gap := new(big.Int).Sub(max, new(big.Int).Div(cur, youUnit)) // YOU left below the threshold
+				if gap.Sign() < 0 {
+					gap = new(big.Int)
+				}
+				you := func(x *big.Int) string { return new(big.Int).Mul(youUnit, x).String() }
+				var amount string
+				switch r.Intn(9) {
+				case 0:
+					amount = "1"
+				case 1:
+					amount = you(big.NewInt(1))
+				case 2:
+					amount = you(gap) // exactly reaches the threshold
+				case 3:
+					amount = you(new(big.Int).Add(gap, big.NewInt(1))) // crosses it
+				case 4:
+					amount = you(new(big.Int).Add(new(big.Int).Rsh(gap, 1), big.NewInt(1))) // two of these cross it
+				case 5:
+					amount = you(big.NewInt(int64(10 + r.Intn(3) - 1))) // around MinDelegationTokens
+				case 6:
+					amount = new(big.Int).Add(bal[k], big.NewInt(int64(r.Intn(3)-1))).String() // around the whole balance
+					if num(amount).Sign() <= 0 {
+						amount = "1"
+					}
+				default:
+					amount = you(big.NewInt(int64(1 + r.Intn(60000))))
+				}
+				vmodes := []string{"deposit", "deposit", "deposit", "deposit", "deposit_zero", "withdraw", "withdraw_no_recipient",
+					"update", "update_nothing", "status", "settle", "deleg_add", "deleg_add", "deleg_add", "deleg_sub", "deleg_settle"}
+				sk = &StkSpec{Mode: vmodes[r.Intn(len(vmodes))], MainKey: v.MainKey, Inner: amount, Status: r.Intn(2)}
+				if sk.Mode == "deleg_add" && num(amount).Cmp(num(you(big.NewInt(10)))) < 0 && r.Chance(75) {
+					amount = you(big.NewInt(int64(10 + r.Intn(2000))))
+					sk.Inner = amount
+				}
+				if sk.Mode == "deleg_add" {
+					delegs = append(delegs, [2]int{k, v.MainKey})
+					delegAmt = append(delegAmt, amount)
+				}
+				if sk.Mode == "deleg_sub" && len(delegs) > 0 && r.Chance(80) {
+					// take back (part of) a delegation made earlier in this period
+					j := r.Intn(len(delegs))
+					k = delegs[j][0]
+					m.Key, m.Nonce, sk.MainKey = k, nonce[k], delegs[j][1]
+					sk.Inner = delegAmt[j]
+					if r.Bool() {
+						sk.Inner = new(big.Int).Rsh(num(delegAmt[j]), 1).String()
+					}
+					if num(sk.Inner).Sign() == 0 {
+						sk.Inner = "1"
+					}
+				}
+				if r.Chance(6) {
+					sk.MainKey = nKeys + 3 // no such validator
+				}
+			} else if r.Chance(25) {
+				sk.Mode, sk.Role = "create_role", []int{1, 2, 3, 7}[r.Intn(4)]
+				switch r.Intn(4) {
+				case 0:
+					sk.Inner = new(big.Int).Mul(youUnit, big.NewInt(int64(499+r.Intn(3)))).String() // around MinSelfStakes
+				case 1:
+					sk.Inner = new(big.Int).Mul(youUnit, big.NewInt(int64(150000+r.Intn(2)))).String() // around MaxStakes[house]
+				}
 			}
 			m.Stk = sk
 			m.Data = hex.EncodeToString(stakingPayload(sk, keyAddr[k], r))
@@ -1514,6 +1734,9 @@ func gen(seed uint64, n int, outDir, corpusDir string) {
 					}
 				}
 				res.Count("step:" + name)
+				if s.Code == 0 && s.Failed && s.HErr != "" && x.Msgs[i].Stk != nil {
+					res.Count("handler_error:" + x.Msgs[i].Stk.Mode + ": " + s.HErr)
+				}
 				if x.Msgs[i].Replay > 0 {
 					res.Count("step:replay_attempts")
 				}
@@ -1560,7 +1783,7 @@ func gen(seed uint64, n int, outDir, corpusDir string) {
 	vf.WriteFile(filepath.Join(outDir, "Cases.v"), sb.String())
 	res.Cases = len(coq)
 	res.Distinct = len(distinct)
-	res.Rule = "three kinds of cases. sender: a random transaction (boundary nonces/prices/limits, creation / staking / zero / short recipients, payloads around the RLP length switches) signed with one of 6 keys for a random network id, then left alone, checked under another network id, or changed in exactly one field / V / r / s (high-s twin, flipped recovery bit, unprotected V, V below 35 with the wrapped network id, +2^64, r,s out of range), observed through types.Sender together with the signing hash; sign: types.SignTx output; apply: an account set (6 key holders with boundary balances, plain recipients, 5 kinds of small contracts, creation-address collisions), a block gas pool and 1-40 signed transactions (calls, creations, staking messages, wrong nonces, limits around intrinsic gas / SSTORE thresholds / validator creation gas / the pool, prices and values around the balance, verbatim replays) run through StateProcessor.ApplyTransaction under protocol versions 3-5 with snapshot/revert on error like the miner; a case is non-trivial unless it is an apply sequence without any applied transaction; distinct by full input and observation"
+	res.Rule = "three kinds of cases. sender: a random transaction (boundary nonces/prices/limits, creation / staking / zero / short recipients, payloads around the RLP length switches) signed with one of 6 keys for a random network id, then left alone, checked under another network id, or changed in exactly one field / V / r / s (high-s twin, flipped recovery bit, unprotected V, V below 35 with the wrapped network id, +2^64, r,s out of range), observed through types.Sender together with the signing hash; sign: types.SignTx output; apply: an account set (6 key holders with boundary balances, plain recipients, 5 kinds of small contracts, creation-address collisions; in 45% of the cases 1-3 validators that exist before the block, at or near MaxStakes/MinStakes of their role, operated by funded key holders), a block gas pool and 1-40 signed transactions all in one staking period (calls, creations, staking messages of every action - create, update, deposit, withdraw, change status, settle, delegation add/sub/settle - with amounts 1 wei, exactly reaching / crossing the role threshold alone or together with earlier messages, around MinDelegationTokens and the whole balance, wrong operator, unknown validator, bad payload; wrong nonces, limits around intrinsic gas / SSTORE thresholds / validator creation gas / the pool, prices and values around the balance, verbatim replays) run through StateProcessor.ApplyTransaction under protocol versions 3-5 with snapshot/revert on error like the miner; a case is non-trivial unless it is an apply sequence without any applied transaction; distinct by full input and observation"
 	for i, c := range res.CaseDescs {
 		if i%97 == 0 && len(res.Samples) < 6 {
 			res.Samples = append(res.Samples, c)
